@@ -63,6 +63,9 @@ fn case_json(s: &str) -> Value {
 }
 
 pub fn replay(case: &Value) -> Result<Verdict, String> {
+    if case["kind"] == "fuzz-input" {
+        return crate::fuzzrun::replay(case);
+    }
     Ok(judge(case["format"].as_str().ok_or("no format")?))
 }
 
@@ -161,7 +164,7 @@ pub fn run(ctx: &Ctx) -> Report {
     total.merge(st);
     total.exhaustive_parts.push("every documented directive/escape alone, between literals, and every ordered pair".into());
 
-    let cases = ctx.tier.pick(20_000u32, 400_000u32);
+    let cases = ctx.tier.pick(400_000u32, 4_000_000u32);
     let shards = 16;
     let rnd = run_shards(shards, |shard| {
         let mut st = Stats::new();
@@ -174,6 +177,11 @@ pub fn run(ctx: &Ctx) -> Report {
     });
     total.merge(rnd);
 
+    // coverage-guided part: replay of the committed corpus (quick), libFuzzer campaign (thorough)
+    crate::fuzzrun::replay_corpus("fmtdiff", &mut total);
+    if ctx.tier == Tier::Thorough && ctx.part.is_none() {
+        crate::fuzzrun::campaign("fmtdiff", ctx.seed, 3_000_000, 8, 120, &mut total);
+    }
     Report {
         stats: total,
         rule: format!("formats reach the parser as -printf '<s>'; exhaustive over all strings of length 1..={max_len} on a 17-symbol alphabet, all documented elements alone/embedded/pairwise, random strings (<=60 chars) from a directive-biased grammar. Oracle: independent linear scanner (directive table, escape table, octal escape of exactly three digits with the 1-2 digit reading of find(1) also accepted, lone backslash stands for itself, maximal literals) -> the returned element list must equal an acceptable segmentation, or Err for an undocumented '%' directive; plus invariants: no empty literal, no adjacent literals. Non-trivial: accepted string with at least one directive/escape element, or rejected string with valid text before the bad directive. Distinct: by string."),
